@@ -52,6 +52,7 @@ type c14call struct {
 	retAt    time.Duration
 	returned bool
 	marker   uint32
+	earlier  bool
 }
 
 type c14sys struct {
@@ -67,7 +68,8 @@ type c14sys struct {
 	returned  bool
 	marker    uint32
 	tags      bool
-	warm      int // earlier queries through the same plugin instance whose exchanges all failed
+	base      time.Duration // virtual instant at which the judged query starts (all times are relative to it)
+	warm      int           // earlier queries through the same plugin instance whose exchanges all failed
 	maxConns  int // upstream option max_conns
 }
 
@@ -83,7 +85,8 @@ func (u *c14up) ExchangeContext(ctx context.Context, m []byte) (*[]byte, error) 
 	c.marker = s.marker
 	u.calls = append(u.calls, c)
 	s.calls = append(s.calls, c)
-	defer func() { c.retAt, c.returned = vs.Elapsed(), true }()
+	c.earlier = bytes.Contains(m, []byte("earlier")) // an exchange of an earlier query of the history (its helper may start late)
+	defer func() { c.retAt, c.returned = vs.Elapsed()-s.base, true }()
 	reply := func(rcode int) (*[]byte, error) {
 		q := new(dns.Msg)
 		if err := q.Unpack(m); err != nil {
@@ -178,6 +181,7 @@ func c14ScenarioH(name string, n, conc int, menu []int, cmode int, tags bool, d,
 				up.calls = nil
 			}
 		}
+		s.base = vs.Elapsed()
 		q := new(dns.Msg)
 		q.SetQuestion("forward.example.", dns.TypeA)
 		q.Id = 0xBEEF
@@ -205,12 +209,19 @@ func c14ScenarioH(name string, n, conc int, menu []int, cmode int, tags bool, d,
 			}).Exec
 		}
 		s.err = exec(ctx, qCtx)
-		s.retAt, s.returned = vs.Elapsed(), true
+		s.retAt, s.returned = vs.Elapsed()-s.base, true
 		s.resp = qCtx.R()
 		cancel()
 	}
 	check := func(x *vs.Exec) (string, *vs.Violation) {
 		s := sys
+		var own []*c14call
+		for _, c := range s.calls {
+			if !c.earlier {
+				own = append(own, c)
+			}
+		}
+		s.calls = own
 		var outs []string
 		for _, c := range s.calls {
 			outs = append(outs, fmt.Sprintf("u%d:%s", c.up, c14Names[c.outcome]))
